@@ -343,8 +343,19 @@ pub fn string_heavy_grammar() -> BoxedStrategy<GrammarSpec> {
         };
         GrammarSpec::Json(json!({"type":"object","properties":{"name":str_s,"tags":{"type":"array","items":{"type":"string","maxLength":lo+3}}},"required":["name"],"additionalProperties":false}))
     });
+    // a bounded run of a wide class, counted in characters or (allow_invalid_utf8) in bytes: tokens of multi-byte
+    // characters are as long as the slices' bounds in one unit and longer in the other
+    let wide = (3u32..42, prop_oneof![Just("[^\"]"), Just("[^\\n]"), Just("."), Just("(?s:.)")], any::<bool>(), any::<bool>()).prop_map(|(n, cl, bytes, quoted)| {
+        let head = if bytes { "%llguidance {\"allow_invalid_utf8\": true}\n" } else { "" };
+        if quoted {
+            GrammarSpec::Lark(format!("{}start: \"\\\"\" BODY \"\\\"\"\nBODY: /{}{{0,{}}}/\n", head, cl, n))
+        } else {
+            GrammarSpec::Lark(format!("{}start: /{}{{0,{}}}/\n", head, cl, n))
+        }
+    });
     prop_oneof![
         3 => s,
+        2 => wide,
         1 => Just(GrammarSpec::Lark("start: \"<\" TEXT \">\" %json {\"type\":\"string\",\"maxLength\":7}\nTEXT: /[a-z ]{0,20}/\n".into())),
         1 => Just(GrammarSpec::Lark("start: STR (\",\" STR)*\nSTR: /\"[^\"\\\\\\x00-\\x1F\\x7F]{0,12}\"/\n".into())),
         1 => Just(GrammarSpec::Regex("\"([^\"\\\\\\x00-\\x1F\\x7F]|\\\\[\"\\\\/bfnrt])*\"".into())),
@@ -363,6 +374,7 @@ pub fn slice_rich_vocab() -> BoxedStrategy<VocabSpec> {
         1 => proptest::collection::vec(prop_oneof![Just(b'a'), Just(b'x'), Just(b' ')], 12..40),
         2 => proptest::collection::vec(prop_oneof![Just(b'"'), Just(b','), Just(b':'), Just(b'{'), Just(b'}'), Just(b'a'), Just(b' '), Just(b'\\'), Just(b'n'), Just(b'['), Just(b']')], 2..5),
         1 => Just("é".as_bytes().to_vec()),
+        1 => (1usize..9, prop_oneof![Just("é"), Just("€"), Just("😀"), Just("aé")]).prop_map(|(k, c)| c.repeat(k).into_bytes()),
         1 => Just("aé".as_bytes()[..2].to_vec()),
         1 => Just("  ".as_bytes().to_vec()),
         1 => Just("\n ".as_bytes().to_vec()),
@@ -494,7 +506,10 @@ impl Prop for C10 {
                 return ctx.fail("C10/mask-differs-with-slices", || format!("grammar {} slices {:?} after tokens {:?} (slices_applied={}): {}", gtxt, sl, toks, applied, d.join("; ")));
             }
             // bits above the vocabulary must be clear on both
-            let ids = mask_ids(&mb, n);
+            let mut ids = mask_ids(&mb, n);
+            // the walk follows text tokens (and EOS): a byte-level grammar (allow_invalid_utf8, bare ~X) lets the marker
+            // byte 0xFF through, so special tokens can sit in both masks and then fail to commit (known finding of C01/C19)
+            ids.retain(|&t| vocab.is_eos(t) || (vocab.is_regular(t) && !vocab.bytes(t).contains(&0xFF)));
             let acc = b.is_accepting().unwrap_or(false);
             let t = match choose(&ids, &vocab, st, acc) {
                 Some(t) => t,
